@@ -8,7 +8,7 @@ from .common import *
 from .models_imports import mk_enum
 
 PROPERTY = 'C02'
-CRATES = ['fil_actors_runtime', 'fil_actor_power']
+CRATES = ['fil_actors_runtime', 'fil_actor_power', 'fil_actor_miner']
 PW = 'fil_actor_power'
 MINP = 10 << 40      # policy.minimum_consensus_power = 10 TiB
 
@@ -117,8 +117,106 @@ def props_current_total(E, res):
              z3.And(raw == z3.If(small, pre['bytes'], pre['tot_raw']), qa == z3.If(small, pre['qabytes'], pre['tot_qa'])))]
 
 
+# ---- miner side: a deadline that closes without a proof removes the power of its un-posted partitions -----------------
+# Deadline::process_deadline_end executed from MIR over a partitions AMT with n entries.  CUTS (declared): the
+# per-partition Partition::record_missed_post (sector sets; C04 area) is replaced by its result contract - arbitrary
+# (power_delta, penalized_power, new_faulty_power) - and recorded; Deadline::add_expiration_partitions -> Ok.
+
+def run_deadline_end(n):
+    def run(E):
+        rt, rtref = new_rt(E)
+        DF = Fields('actors/miner/src/deadline_state.rs', 'Deadline')
+        PF = Fields('actors/miner/src/partition_state.rs', 'Partition')
+        dl = StructV('deadline_state::Deadline', {}, lazy='dl')
+        pcid = fget(E, dl, DF['partitions'], CID)
+        qb = BaseInfo(closed=True)
+        E.ctx.memo[('mapbase', 'map(%s)' % pcid.hkey[1])] = qb
+        parts = []
+        for i in range(n):
+            p = LazyV('part%d' % i, 'partition_state::Partition')
+            qb.entries.append([('int', i), True, p, IntV(i, 'u64')])
+            parts.append(p)
+        calls = []
+
+        def pp(nm):
+            raw, qa = z3.Int(nm + '.raw'), z3.Int(nm + '.qa')
+            return StructV('partition_state::PowerPair', {0: BigV(raw), 1: BigV(qa)}), (raw, qa)
+
+        def cut_missed(E2, c):
+            part = E2.deref(c.args[0])
+            who = part.name if isinstance(part, LazyV) else getattr(part, 'lazy', None)
+            k = len(calls)
+            d, dv = pp('missed%d.power_delta' % k)
+            pen, penv = pp('missed%d.penalized' % k)
+            nf, nfv = pp('missed%d.new_faulty' % k)
+            E2.ctx.assume(z3.And(nfv[0] >= 0, nfv[1] >= 0, penv[0] >= 0, penv[1] >= 0))
+            calls.append(dict(who=who, delta=dv, pen=penv, nf=nfv))
+            E2.ctx.env['missed_calls'] = list(calls)
+            return ok(StructV('tuple', {0: d, 1: pen, 2: nf}), c.dest_ty)
+        E.cuts['Partition::record_missed_post'] = cut_missed
+        E.cuts['Deadline::add_expiration_partitions'] = lambda E2, c: ok(UNIT, c.dest_ty)
+        cell = Cell(dl, 'dl')
+        fp0 = fget(E, dl, DF['faulty_power'], 'PowerPair')
+        E.ctx.env.update(dict(parts=parts, cell=cell, dl0=dl, missed_calls=[], n=n,
+                              fp0=(big(E, fget(E, fp0, 0, 'BigInt')), big(E, fget(E, fp0, 1, 'BigInt')))))
+        quant = LazyV('quant', 'quantize::QuantSpec')
+        fn = find_fn(E, 'fil_actor_miner', 'process_deadline_end', 'deadline_state')
+        return E.run_function(fn, [RefV(cell, (), True), RefV(Cell(OpaqueV('store'), 'store'), ()), quant, E.materialize('i64', 'fault_expiration'), E.materialize(CID, 'sectors')]), rt
+    return run
+
+
+def props_deadline_end(E, res):
+    env = res.ctx.env
+    ctx = res.ctx
+    if res.kind != 'return':
+        return [('no panic (%s)' % str(res.info)[:60], False)]
+    if is_err(res.value):
+        return [('closing a well-formed deadline does not fail', False)]
+    DF = Fields('actors/miner/src/deadline_state.rs', 'Deadline')
+    PF = Fields('actors/miner/src/partition_state.rs', 'Partition')
+    calls = env['missed_calls']
+    called = [c['who'] for c in calls]
+    P = []
+    posted = ctx.memo.get(('bfbits', 'dl.%d' % DF['partitions_posted']), [])
+
+    def is_posted(i):
+        for (kt, b) in posted:
+            if implied(ctx, kt == i):
+                return b
+        return None
+    for i, p in enumerate(env['parts']):
+        b = is_posted(i)
+        if b is None:
+            P.append(('every partition of the deadline is examined', False))
+            continue
+        rec = fget(E, p, PF['recovering_power'], 'PowerPair')
+        fp = fget(E, p, PF['faulty_power'], 'PowerPair')
+        lp = fget(E, p, PF['live_power'], 'PowerPair')
+        g = lambda x, j: big(E, fget(E, x, j, 'BigInt'))
+        all_faulty = z3.And(g(rec, 0) == 0, g(rec, 1) == 0, g(fp, 0) == g(lp, 0), g(fp, 1) == g(lp, 1))
+        must = z3.And(z3.Not(b), z3.Not(all_faulty))
+        was = z3.BoolVal(p.name in called)
+        P.append(('partition %d: a missed proof is recorded exactly when the partition was not proven and is not already entirely faulty' % i, was == must))
+        P.append(('partition %d: recorded at most once' % i, called.count(p.name) <= 1))
+    r = E.deref(res.value.fields[('Ok', 0)])
+    pd, pen = E.deref(r.fields[0]), E.deref(r.fields[1])
+    g = lambda x, j: big(E, fget(E, x, j, 'BigInt'))
+    P.append(('the power removed by the deadline is the sum over its un-proven partitions', z3.And(g(pd, 0) == sum(c['delta'][0] for c in calls) if calls else g(pd, 0) == 0,
+                                                                                                 g(pd, 1) == sum(c['delta'][1] for c in calls) if calls else g(pd, 1) == 0)))
+    P.append(('penalised power is the sum over the un-proven partitions', z3.And(g(pen, 0) == (sum(c['pen'][0] for c in calls) if calls else 0),
+                                                                                 g(pen, 1) == (sum(c['pen'][1] for c in calls) if calls else 0))))
+    dl1 = env['cell'].value
+    fp1 = fget(E, dl1, DF['faulty_power'], 'PowerPair')
+    P.append(("the deadline's faulty power grows by exactly the newly faulty power", z3.And(g(fp1, 0) == env['fp0'][0] + (sum(c['nf'][0] for c in calls) if calls else 0),
+                                                                                            g(fp1, 1) == env['fp0'][1] + (sum(c['nf'][1] for c in calls) if calls else 0))))
+    return P
+
+
 def build(tier):
-    return [Obligation('power.update_claimed_power', run_update, props_update,
+    return [Obligation('miner.Deadline::process_deadline_end[partitions=%d]' % n, run_deadline_end(n), props_deadline_end,
+                       descr='closing a deadline records a missed proof for exactly the partitions that were not proven (and are not already entirely faulty), once each; power removed / penalised / newly faulty are the sums over those partitions',
+                       bounds='%d partitions; partition contents symbolic; CUTS: Partition::record_missed_post (result contract), add_expiration_partitions' % n, max_paths=100000)
+            for n in ([1, 2] if tier == 'quick' else [1, 2, 3])] + [Obligation('power.update_claimed_power', run_update, props_update,
                        descr='totals move by exactly the change of the caller\'s contribution under the consensus-minimum rule; only miners; only the caller\'s claim written',
                        bounds='one call; claims map symbolic under the power-state invariant; deltas unbounded (either sign)', max_paths=20000),
             Obligation('power.State::current_total_power', run_current_total, props_current_total,
